@@ -73,4 +73,180 @@ theorem sound_zero (regs : Regs) (lim : Nat) : Sound regs lim 0 := by
   · intro d toks es h rest hh; unfold parseListItems at hh; cases hh
   · intro d toks es h rest hh; unfold parseMapItems at hh; cases hh
 
+theorem AST.height_pos : ∀ e : AST, 1 ≤ e.height := by
+  intro e; cases e <;> simp [AST.height]
+
+section Step
+variable {regs : Regs} {lim fuel : Nat} (hl : 1 ≤ lim) (hp : RegsPos regs) (ih : Sound regs lim fuel)
+include hl hp ih
+
+theorem step_tok (d : Nat) (toks : List Tok) (e : AST) (h : Nat) (rest : List Tok)
+    (hh : parseToken regs lim (fuel + 1) d toks = .ok (e, h, rest)) :
+    ∃ c, toks = c ++ rest ∧ GTok regs c e ∧ h = e.height ∧ h ≤ lim := by
+  unfold parseToken at hh
+  split at hh
+  · cases hh
+  · cases hh; exact ⟨[_], rfl, GTok.num _, by simp [AST.height], hl⟩
+  · cases hh; exact ⟨[_], rfl, GTok.bool _, by simp [AST.height], hl⟩
+  · cases hh; exact ⟨[_], rfl, GTok.str _, by simp [AST.height], hl⟩
+  · cases hh; exact ⟨[_], rfl, GTok.ref _, by simp [AST.height], hl⟩
+  · -- call
+    rename_i n r
+    obtain ⟨r1, he, h2⟩ := Res.bind_eq_ok hh
+    try dsimp only at h2
+    have hr := expectTok_ok he
+    split at h2
+    · rename_i r2
+      cases h2
+      exact ⟨[.func n, tOpen, tClose], by simp [hr, tOpen, tClose], GTok.call0 n, by simp [AST.height, AST.heightList], hl⟩
+    · obtain ⟨⟨args, ha, r2⟩, hargs, h3⟩ := Res.bind_eq_ok h2
+      obtain ⟨h', hn, h4⟩ := Res.bind_eq_ok h3
+      try dsimp only at h4
+      cases h4
+      obtain ⟨c, hc, hg, hh1, _⟩ := ih.args d _ args ha _ hargs
+      obtain ⟨hn1, hn2⟩ := node_ok hn
+      exact ⟨.func n :: tOpen :: (c ++ [tClose]), by simp [hr, hc, tOpen], GTok.call hg, by simp [AST.height, hn1, hh1], by omega⟩
+  · -- unary
+    rename_i o r
+    split at hh
+    · cases hh
+    · rename_i hpre
+      split at hh
+      · cases hh
+      · obtain ⟨⟨rhs, hr, r1⟩, hprim, h2⟩ := Res.bind_eq_ok hh
+        obtain ⟨h', hn, h3⟩ := Res.bind_eq_ok h2
+        try dsimp only at h3
+        cases h3
+        obtain ⟨c, hc, hg, hh1, _⟩ := ih.prim (d + 1) r rhs hr _ hprim
+        obtain ⟨hn1, hn2⟩ := node_ok hn
+        exact ⟨.op o :: c, by simp [hc], GTok.unary (by simpa using hpre) hg, by simp [AST.height, hn1, hh1], by omega⟩
+  · -- paren
+    rename_i r
+    obtain ⟨⟨e', he', r1⟩, hexp, h2⟩ := Res.bind_eq_ok hh
+    try dsimp only at h2
+    split at h2
+    · rename_i r2
+      cases h2
+      obtain ⟨c, hc, hg, hh1, hh2⟩ := ih.expr d r e h _ hexp
+      exact ⟨tOpen :: (c ++ [tClose]), by simp [hc, tOpen, tClose], GTok.paren hg, hh1, hh2⟩
+    · cases h2
+  · -- list
+    rename_i r
+    obtain ⟨⟨xs, hx, r1⟩, hitems, h2⟩ := Res.bind_eq_ok hh
+    try dsimp only at h2
+    obtain ⟨r2, he, h3⟩ := Res.bind_eq_ok h2
+    try dsimp only at h3
+    obtain ⟨h', hn, h4⟩ := Res.bind_eq_ok h3
+    try dsimp only at h4
+    cases h4
+    have hr := expectTok_ok he
+    obtain ⟨c, hc, hg, hh1, _⟩ := ih.items d r xs hx _ hitems
+    obtain ⟨hn1, hn2⟩ := node_ok hn
+    exact ⟨tOpenB :: (c ++ [tCloseB]), by simp [hc, hr, tOpenB, tCloseB], GTok.list hg, by simp [AST.height, hn1, hh1], by omega⟩
+  · -- map
+    rename_i r
+    obtain ⟨⟨kvs, hx, r1⟩, hitems, h2⟩ := Res.bind_eq_ok hh
+    try dsimp only at h2
+    obtain ⟨r2, he, h3⟩ := Res.bind_eq_ok h2
+    try dsimp only at h3
+    obtain ⟨h', hn, h4⟩ := Res.bind_eq_ok h3
+    try dsimp only at h4
+    cases h4
+    have hr := expectTok_ok he
+    obtain ⟨c, hc, hg, hh1, _⟩ := ih.entries d r kvs hx _ hitems
+    obtain ⟨hn1, hn2⟩ := node_ok hn
+    exact ⟨tOpenC :: (c ++ [tCloseC]), by simp [hc, hr, tOpenC, tCloseC], GTok.map hg, by simp [AST.height, hn1, hh1], by omega⟩
+  · cases hh
+  · cases hh
+  · cases hh
+
+theorem step_prim (d : Nat) (toks : List Tok) (e : AST) (h : Nat) (rest : List Tok)
+    (hh : parsePrimary regs lim (fuel + 1) d toks = .ok (e, h, rest)) :
+    ∃ c, toks = c ++ rest ∧ GPrim regs c e ∧ h = e.height ∧ h ≤ lim := by
+  unfold parsePrimary at hh
+  obtain ⟨⟨lhs, hl0, r⟩, htok, h2⟩ := Res.bind_eq_ok hh
+  try dsimp only at h2
+  obtain ⟨c, hc, hg, hh1, hh2⟩ := ih.tok d toks lhs hl0 r htok
+  split at h2
+  · rename_i o r1
+    split at h2
+    · rename_i hpost
+      obtain ⟨h', hn, h3⟩ := Res.bind_eq_ok h2
+      cases h3
+      obtain ⟨hn1, hn2⟩ := node_ok hn
+      exact ⟨c ++ [.op o], by simp [hc], GPrim.postfix hg hpost, by simp [AST.height, hn1, hh1], by omega⟩
+    · cases h2
+      exact ⟨c, hc, GPrim.tok hg, hh1, hh2⟩
+  · cases h2
+    exact ⟨c, hc, GPrim.tok hg, hh1, hh2⟩
+
+theorem step_expr (d : Nat) (toks : List Tok) (e : AST) (h : Nat) (rest : List Tok)
+    (hh : parseExpression regs lim (fuel + 1) d toks = .ok (e, h, rest)) :
+    ∃ c, toks = c ++ rest ∧ GExpr regs c e ∧ h = e.height ∧ h ≤ lim := by
+  unfold parseExpression at hh
+  split at hh
+  · cases hh
+  · obtain ⟨⟨lhs, hl0, r⟩, hprim, h2⟩ := Res.bind_eq_ok hh
+    try dsimp only at h2
+    obtain ⟨c, hc, hg, hh1, hh2⟩ := ih.prim (d + 1) toks lhs hl0 r hprim
+    obtain ⟨c2, hc2, hg2, _, hh3, hh4⟩ := ih.op (d + 1) 0 lhs hl0 r e h rest h2 (by omega) c (GBin.prim hg) hh1 hh2
+    exact ⟨c ++ c2, by simp [hc, hc2], hg2, hh3, hh4⟩
+
+theorem step_args (d : Nat) (toks : List Tok) (es : List AST) (h : Nat) (rest : List Tok)
+    (hh : parseArgs regs lim (fuel + 1) d toks = .ok (es, h, rest)) :
+    ∃ c, toks = c ++ tClose :: rest ∧ GArgs regs c es ∧ h = AST.heightList es ∧ h ≤ lim := by
+  unfold parseArgs at hh
+  obtain ⟨⟨a, ha, r⟩, hexp, h2⟩ := Res.bind_eq_ok hh
+  try dsimp only at h2
+  obtain ⟨c, hc, hg, hh1, hh2⟩ := ih.expr d toks a ha r hexp
+  split at h2
+  · rename_i r1
+    cases h2
+    exact ⟨c, by simp [hc, tClose], GArgs.one hg, by simp [AST.heightList, hh1], hh2⟩
+  · obtain ⟨r1, he, h3⟩ := Res.bind_eq_ok h2
+    try dsimp only at h3
+    obtain ⟨⟨as, ha', r2⟩, hrec, h4⟩ := Res.bind_eq_ok h3
+    try dsimp only at h4
+    cases h4
+    have hr := expectTok_ok he
+    obtain ⟨c2, hc2, hg2, hh3, hh4⟩ := ih.args d r1 as ha' _ hrec
+    exact ⟨c ++ .comma :: c2, by simp [hc, hr, hc2], GArgs.cons hg hg2, by simp [AST.heightList, hh1, hh3], by omega⟩
+
+theorem step_items (d : Nat) (toks : List Tok) (es : List AST) (h : Nat) (rest : List Tok)
+    (hh : parseListItems regs lim (fuel + 1) d toks = .ok (es, h, rest)) :
+    ∃ c, toks = c ++ rest ∧ GItems regs c es ∧ h = AST.heightList es ∧ h ≤ lim := by
+  unfold parseListItems at hh
+  split at hh
+  · cases hh; exact ⟨[], rfl, GItems.nil, rfl, by omega⟩
+  · cases hh; exact ⟨[], rfl, GItems.nil, rfl, by omega⟩
+  · obtain ⟨⟨a, ha, r⟩, hexp, h2⟩ := Res.bind_eq_ok hh
+    try dsimp only at h2
+    obtain ⟨c, hc, hg, hh1, hh2⟩ := ih.expr d toks a ha r hexp
+    obtain ⟨r1, hsep, h3⟩ := Res.bind_eq_ok h2
+    try dsimp only at h3
+    obtain ⟨⟨as, ha', r2⟩, hrec, h4⟩ := Res.bind_eq_ok h3
+    try dsimp only at h4
+    cases h4
+    obtain ⟨c2, hc2, hg2, hh3, hh4⟩ := ih.items d r1 as ha' _ hrec
+    split at hsep
+    · -- next token is `]`: no separator consumed; the recursive call returns nothing
+      rename_i r3
+      cases hsep
+      -- the recursive call sees `]` first
+      have : as = [] ∧ c2 = [] := by
+        cases fuel with
+        | zero => unfold parseListItems at hrec; cases hrec
+        | succ f =>
+          unfold parseListItems at hrec
+          simp at hrec
+          obtain ⟨rfl, _, rfl⟩ := hrec
+          cases hg2 with
+          | nil => exact ⟨rfl, rfl⟩
+      obtain ⟨rfl, rfl⟩ := this
+      refine ⟨c, by simp at hc2; simp [hc, hc2], GItems.one hg, by simp [AST.heightList, hh1] at hh3 ⊢; omega, by omega⟩
+    · have hr := expectTok_ok hsep
+      exact ⟨c ++ .comma :: c2, by simp [hc, hr, hc2], GItems.cons hg hg2, by simp [AST.heightList, hh1, hh3], by omega⟩
+
+end Step
+
 end EE
